@@ -160,7 +160,8 @@ func (e *Engine) havocObject(st *State, obj string) {
 	}
 	for _, m := range []map[string]bool{st.nonnil, st.isnil, st.elemsNN} {
 		for k := range m {
-			if strings.HasPrefix(k, obj) && (len(k) == len(obj) || k[len(obj)] == '.') {
+			b := strings.TrimPrefix(k, "D")
+			if strings.HasPrefix(b, obj) && (len(b) == len(obj) || b[len(obj)] == '.' || b[len(obj)] == '[') {
 				delete(m, k)
 			}
 		}
